@@ -17,6 +17,7 @@ import (
 	"github.com/nspcc-dev/neo-go/pkg/crypto/keys"
 	"github.com/nspcc-dev/neo-go/pkg/encoding/fixedn"
 	"github.com/nspcc-dev/neo-go/pkg/io"
+	"github.com/nspcc-dev/neo-go/pkg/neorpc"
 	"github.com/nspcc-dev/neo-go/pkg/neotest"
 	"github.com/nspcc-dev/neo-go/pkg/network"
 	"github.com/nspcc-dev/neo-go/pkg/rpcclient"
@@ -33,6 +34,9 @@ type rpcEnd struct {
 	c        *rpcclient.Internal
 	cancel   context.CancelFunc
 	accepted int // transactions handed to the (never started) network server's relay queue
+	// raw JSON-RPC requests (r4_encodings_test.go): a second local subscriber
+	raw       func(*neorpc.Request) (*neorpc.Response, error)
+	rawCancel context.CancelFunc
 }
 
 // relayQueue is the capacity of network.Server's transaction relay channel: an
@@ -78,6 +82,9 @@ func (r *rpcEnd) close() {
 	}
 	r.c.Close()
 	r.cancel()
+	if r.rawCancel != nil {
+		r.rawCancel()
+	}
 	r.srv.Shutdown()
 }
 
